@@ -8,7 +8,9 @@ use serde_json::{Value, json};
 
 use crate::util::{Args, Out, Rng, catch, par_map};
 
-const TEMPLATES: [&str; 6] = ["{}", "We saw {} today.", "{} is here.", "It was, {} !", "Ünïcödé 😀 then {} again.", "One line.\n\nThen {} there."];
+// the last six put the word into a run of hyphenated words, next to compounds the dictionary lists with their hyphens
+const TEMPLATES: [&str; 12] = ["{}", "We saw {} today.", "{} is here.", "It was, {} !", "Ünïcödé 😀 then {} again.", "One line.\n\nThen {} there.",
+    "a built-in-{} call", "It ran back-to-back-{} twice.", "{}-built-in code", "The add-on-{} part.", "well-{}-known", "A blue-collar-{}."];
 
 fn dname(d: Option<Dialect>) -> &'static str {
     match d { None => "none", Some(Dialect::American) => "American", Some(Dialect::British) => "British",
@@ -93,7 +95,7 @@ pub fn main(a: &Args) {
         let lower = w.iter().all(|c| !c.is_uppercase());
         if lower {
             jobs.push((w.clone(), "cap", k % 4, (k % 5) + 1));
-            jobs.push((w.clone(), "upper", (k + 1) % 4, k % 6));
+            jobs.push((w.clone(), "upper", (k + 1) % 4, k % TEMPLATES.len()));
         }
     }
     // non-words: edits of real words and random letter strings that the dictionary lacks under any capitalisation
@@ -113,7 +115,7 @@ pub fn main(a: &Args) {
         if rng.chance(1, 4) { if let Some(c) = w.first_mut() { *c = c.to_ascii_uppercase(); } }
         if w.len() < 2 || dict.contains_word(&w) { continue; }
         // single-letter / plural-digit lexing quirks aside, it must be one word token: letters only
-        jobs.push((w, "nonword", nonwords % 4, nonwords % 6));
+        jobs.push((w, "nonword", nonwords % 4, nonwords % TEMPLATES.len()));
         nonwords += 1;
     }
     // misspellings of dialect-tagged entries, each under all four dialects one after the other on one thread
@@ -129,13 +131,13 @@ pub fn main(a: &Args) {
         let p = rng.range(1, b.len() - 1);
         match rng.below(3) { 0 => b.insert(p, *rng.pick(&letters[..])), 1 => { b.remove(p); } _ => b[p] = *rng.pick(&letters[..]) }
         if dict.contains_word(&b) { continue; }
-        jobs.push((b, "nonword-all", rng.below(24), all4 % 6));
+        jobs.push((b, "nonword-all", rng.below(24), all4 % TEMPLATES.len()));
         all4 += 1;
     }
     // dialect-tagged entries themselves (flagged under the other dialects, with suggestions)
     for k in 0..(want4 / 2).min(tagged.len()) {
         let w = tagged[rng.below(tagged.len())].clone();
-        jobs.push((w, "listed-all", rng.below(24), k % 6));
+        jobs.push((w, "listed-all", rng.below(24), k % TEMPLATES.len()));
     }
     // the dictionary the applications really use: curated first, the user's words second. A user word that is
     // another capitalisation of a curated entry, or new, is listed as the user wrote it
